@@ -169,9 +169,11 @@ func init() {
 				if c.Res.Inconclusive != "" {
 					return
 				}
-				e := newTxEval(tr)
-				e.checkRestart(c)
-				e.checkSafe(c, false)
+				simrt.NoPreempt(func() {
+					e := newTxEval(tr)
+					e.checkRestart(c)
+					e.checkSafe(c, false)
+				})
 				c.Res.Nontrivial = len(tr.restarts) == 2
 			})
 			ns.S.Run(func() bool { return done })
